@@ -1997,7 +1997,7 @@ Section SemSim.
       assert (gc_clean y3 = true) as -> by (unfold gc_clean; rewrite (r_gc _ _ _ _ _ R3); reflexivity).
       destruct (call_exit E E' F X sst sst1 s2 y y3 nf dl _ HR R3 Hext Fr3 Ho1 Hn1 Hf1 Hfresh) as [R4 Fr4].
       cbn [corr]. exists X. split; [exact V|]. split; [exact R4|exact Fr4].
-    - destruct Hbody as [X [V [R3 Fr3]]].
+    - destruct Hbody as [_ [X [V [R3 Fr3]]]].
       destruct (call_exit E E' F X sst sst1 s2 y y3 nf dl _ HR R3 Hext Fr3 Ho1 Hn1 Hf1 Hfresh) as [R4 Fr4].
       cbn [corr]. exists X. split; [exact V|]. split; [exact R4|exact Fr4].
   Qed.
@@ -2059,9 +2059,10 @@ Section SemSim.
   Proof. intros E sst c H. left. exact H. Qed.
 
   Lemma corr_shift_ext : forall E E1 E2 F X sst sst1 r x, frame E sst sst1 -> fresh_ext E E1 sst ->
+    ce_mode E1 = ce_mode E ->
     corr Sall E1 E2 (F ++ X) sst1 r x -> corr Sall E E2 F sst r x.
   Proof.
-    intros E E1 E2 F X sst sst1 r x Hf Hx H.
+    intros E E1 E2 F X sst sst1 r x Hf Hx Hmode H.
     destruct r as [vs s'|[| |rv] s'|k s'|f s'|]; destruct x as [vy y'|y'|y'|vy y'|k'|f'| |]; cbn [corr] in *;
       try exact I; try contradiction; try exact H;
       try (destruct k; try exact I; try contradiction; exact H).
@@ -2069,7 +2070,7 @@ Section SemSim.
       exact (frame_ext _ _ _ _ _ Hf Fr Hx).
     - destruct H as [X' [R Fr]]. exists (X ++ X'). rewrite app_assoc. split; [exact R|exact (frame_ext _ _ _ _ _ Hf Fr Hx)].
     - destruct H as [X' [R Fr]]. exists (X ++ X'). rewrite app_assoc. split; [exact R|exact (frame_ext _ _ _ _ _ Hf Fr Hx)].
-    - destruct H as [X' [V [R Fr]]]. exists (X ++ X'). rewrite app_assoc. split; [exact V|]. split; [exact R|].
+    - destruct H as [Hmd [X' [V [R Fr]]]]. split; [congruence|]. exists (X ++ X'). rewrite app_assoc. split; [exact V|]. split; [exact R|].
       exact (frame_ext _ _ _ _ _ Hf Fr Hx).
   Qed.
 
@@ -2087,7 +2088,7 @@ Section SemSim.
       try (exists E1; split; [exact Hext|]; split; [exact HP|]; first [exact I|exact H|destruct e; first [exact I|exact H]]; fail).
     - destruct H as [X [V [R Fr]]]. destruct (Hk vs s' vy y' X V R Fr) as [Hfx [E' [Hext' [HP' Hc]]]].
       exists E'. split; [exact (env_ext_trans _ _ _ Hext Hext')|]. split; [exact HP'|].
-      exact (corr_shift_ext E E1 E' F X sst s' _ _ Fr Hfx Hc).
+      exact (corr_shift_ext E E1 E' F X sst s' _ _ Fr Hfx (proj1 Hext) Hc).
     - exists E1. split; [exact Hext|]. split; [exact HP|].
       destruct (k vs s') as [a b|[| |c] b|e b|f b|]; try exact I. destruct e; exact I.
     - exists E1. split; [exact Hext|]. split; [exact HP|]. destruct e; try contradiction. exact I.
@@ -2351,5 +2352,486 @@ Section SemSim.
       specialize (HlocS eq_refl). unfold ctx_ok in Hctx. rewrite Em in Hctx.
       destruct Hctx as [g [c0 [mids [k [outer [cur [_ [_ [_ [_ [H5 [_ [H7 [_ H9]]]]]]]]]]]]]].
       rewrite (cmax_ltab st _ _ _ _ _ H5) in HlocS. rewrite H7, map_length in H9. lia.
+  Qed.
+
+  (** ** The statements *)
+
+  Definition l_concl (fuel : nat) (fa : bool) (l : list stmt) (c : dctx) (st : cstate) (E : cenv) (F : list fentry)
+             (sst : sstate) (y : yst) (last last' : val) : Prop :=
+    exists E', env_ext E E' /\ (top0 fa E = false -> ce_L E' = ce_L E) /\
+      corr Sall E E' F sst (exec_block orc fuel c l last sst) (ystmts orc fuel st l last' y).
+
+  Lemma eb_expr_other : forall f c e r last sst, (forall c0 nm ps body, e <> EFunction (c0 :: nm) ps body) ->
+    exec_block orc (S f) c (SExpr e :: r) last sst =
+    rbind (eval_expr orc f c e sst) (fun v st1 => exec_block orc f c r v st1).
+  Proof.
+    intros f c e r last sst H. rewrite eb_expr3. destruct e; try reflexivity. destruct name as [|c0 nm]; [reflexivity|].
+    exfalso. exact (H c0 nm params body eq_refl).
+  Qed.
+
+  Lemma stmt_nil : forall f fa c st E F sst y last last', Rel3 Sall E F sst y -> vrel F last last' ->
+    l_concl (S f) fa [] c st E F sst y last last'.
+  Proof.
+    intros f fa c st E F sst y last last' HR V. exists E. split; [apply env_ext_refl|]. split; [reflexivity|].
+    rewrite eb_nil, ys_nil. cbn [corr]. exists []. rewrite app_nil_r. split; [exact V|]. split; [exact HR|apply frame_refl].
+  Qed.
+
+  Lemma stmt_expr : forall f, P_e f -> P_l f -> forall e, (forall c0 nm ps body, e <> EFunction (c0 :: nm) ps body) ->
+    forall lp fa fn r c st st' E F sst y last last',
+    f3b lp fa fn (SExpr e :: r) = true -> compile_statements (SExpr e :: r) st = Ok st' -> ctx_ok st c E -> flags_ok fa fn E ->
+    Rel3 Sall E F sst y -> locb E st' -> holes_b E (SExpr e :: r) -> (forall fe, occ_l (SExpr e :: r) st fe -> Sall fe) ->
+    vrel F last last' -> l_concl (S f) fa (SExpr e :: r) c st E F sst y last last'.
+  Proof.
+    intros f IHe IHl e Hne lp fa fn r c st st' E F sst y last last' HF Hc Hctx Hfl HR Hloc Hh Hocc Hlast.
+    rewrite f3b_cons in HF. apply andb_prop in HF. destruct HF as [HFe HFr]. rewrite (f3s_expr_other _ _ _ e Hne) in HFe.
+    cbn [compile_statements] in Hc. bok Hc st2 H2. pose proof H2 as H2'. rewrite CompilerNames.cs_expr in H2. bok H2 st1 H1.
+    inversion H2; subst st2; clear H2.
+    destruct (holes_cons E _ _ Hh) as [Hhs Hhr].
+    destruct (ctx_ok_expr e lp fa fn st st1 c E HFe H1 Hctx) as [Hctx1 Hk1].
+    destruct (ctx_ok_syms st1 (emit_opcode OPop st1) c E eq_refl Hctx1) as [Hctx2 Hk2].
+    pose proof (cmax_stmts r lp fa fn _ st' c E HFr Hc Hctx2) as Hk3.
+    unfold l_concl. rewrite (eb_expr_other f c e r last sst Hne), ys_expr.
+    apply (seq_l E E F sst _ _ _ _ (fun E' => top0 fa E = false -> ce_L E' = ce_L E)).
+    - apply (IHe lp fa fn e c st st1 E F sst y HFe H1 Hctx Hfl HR); [|exact Hhs|].
+      + intros Em. specialize (Hloc Em). lia.
+      + intros fe Ho. apply Hocc. apply oc_l_hd. apply oc_s_expr. exact Ho.
+    - apply env_ext_refl.
+    - reflexivity.
+    - intros vs s1 vy y1 X V R1 Fr1. split; [apply fresh_ext_refl|]. cbv beta. rewrite H2'.
+      destruct (IHl lp fa fn r c (emit_opcode OPop st1) st' E (F ++ X) s1 y1 vs vy HFr Hc Hctx2 Hfl R1 Hloc Hhr
+                  (fun fe Ho => Hocc fe (oc_l_tl _ _ _ _ _ H2' Ho)) V) as [E' [Hext [HL Hcorr]]].
+      exists E'. split; [exact Hext|]. split; [exact HL|exact Hcorr].
+  Qed.
+
+  Lemma stmt_return : forall f, P_e f -> forall e lp fa fn r c st st' E F sst y last last',
+    f3b lp fa fn (SReturn e :: r) = true -> compile_statements (SReturn e :: r) st = Ok st' -> ctx_ok st c E -> flags_ok fa fn E ->
+    Rel3 Sall E F sst y -> locb E st' -> holes_b E (SReturn e :: r) -> (forall fe, occ_l (SReturn e :: r) st fe -> Sall fe) ->
+    vrel F last last' -> l_concl (S f) fa (SReturn e :: r) c st E F sst y last last'.
+  Proof.
+    intros f IHe e lp fa fn r c st st' E F sst y last last' HF Hc Hctx Hfl HR Hloc Hh Hocc Hlast.
+    rewrite f3b_cons in HF. apply andb_prop in HF. destruct HF as [HFe HFr]. rewrite f3s_return in HFe.
+    cbn [compile_statements] in Hc. bok Hc st2 H2. pose proof H2 as H2'. rewrite CompilerNames.cs_return in H2.
+    destruct (in_global_context (c_symbols st)) eqn:Eg; [discriminate H2|]. bok H2 st1 H1.
+    inversion H2; subst st2; clear H2.
+    destruct (holes_cons E _ _ Hh) as [Hhs Hhr].
+    destruct (ctx_ok_expr e false fa fn st st1 c E HFe H1 Hctx) as [Hctx1 Hk1].
+    destruct (ctx_ok_syms st1 (emit_opcode OReturnValue st1) c E eq_refl Hctx1) as [Hctx2 Hk2].
+    pose proof (cmax_stmts r lp fa fn _ st' c E HFr Hc Hctx2) as Hk3.
+    assert (ce_mode E = MFun) as Em.
+    { destruct (ce_mode E) eqn:Em; [|reflexivity]. unfold ctx_ok in Hctx. rewrite Em in Hctx.
+      destruct Hctx as [_ [_ [_ [k [outer [cur [Hs _]]]]]]]. rewrite Hs, in_global_ltab in Eg. discriminate Eg. }
+    exists E. split; [apply env_ext_refl|]. split; [reflexivity|].
+    rewrite eb_return, ys_return. apply corr_bind.
+    - apply (IHe false fa fn e c st st1 E F sst y HFe H1 Hctx Hfl HR); [|exact Hhs|].
+      + intros Em'. specialize (Hloc Em'). lia.
+      + intros fe Ho. apply Hocc. apply oc_l_hd. apply oc_s_ret. exact Ho.
+    - intros vs s1 vy y1 X V R1 Fr1.
+      assert (gc_clean y1 = true) as -> by (unfold gc_clean; rewrite (r_gc _ _ _ _ _ R1); reflexivity).
+      cbn [corr]. split; [exact Em|]. exists []. rewrite app_nil_r. split; [exact V|]. split; [exact R1|apply frame_refl].
+  Qed.
+
+  Lemma stmt_break : forall f fa r c st E F sst y last last', Rel3 Sall E F sst y ->
+    l_concl (S f) fa (SBreak :: r) c st E F sst y last last'.
+  Proof.
+    intros f fa r c st E F sst y last last' HR. exists E. split; [apply env_ext_refl|]. split; [reflexivity|].
+    rewrite eb_break, ys_break. cbn [corr]. exists []. rewrite app_nil_r. split; [exact HR|apply frame_refl].
+  Qed.
+
+  Lemma stmt_continue : forall f fa r c st E F sst y last last', Rel3 Sall E F sst y ->
+    l_concl (S f) fa (SContinue :: r) c st E F sst y last last'.
+  Proof.
+    intros f fa r c st E F sst y last last' HR. exists E. split; [apply env_ext_refl|]. split; [reflexivity|].
+    rewrite eb_continue, ys_continue. cbn [corr]. exists []. rewrite app_nil_r. split; [exact HR|apply frame_refl].
+  Qed.
+
+  Lemma sblock_ctx : forall b lp fn st st2 c E, f3b lp fn fn b = true -> compile_statement (SBlock b) st = Ok st2 ->
+    ctx_ok st c E ->
+    ctx_ok st2 c E /\ (cmax st <= cmax st2)%nat /\
+    (b <> [] -> exists stb, compile_statements b (set_symbols st (enter_scope (c_symbols st))) = Ok stb /\ cmax stb = cmax st2).
+  Proof.
+    intros b lp fn st st2 c E HF Hc Hctx.
+    destruct (ctx_ok_wfshape st c E Hctx) as [pre [sc [k [outer [cur [W _]]]]]]. pose proof W as [Ws [Wp Ww]].
+    rewrite CompilerNames.cs_block in Hc. destruct b as [|s0 r]; cbn [is_nil] in Hc.
+    - inversion Hc; subst st2. destruct (ctx_ok_syms st (emit_opcode OPop (emit_opcode ONull st)) c E eq_refl Hctx) as [A B].
+      split; [exact A|]. split; [lia|intros N; contradiction].
+    - apply bind_ok in Hc. destruct Hc as [stb [Hb Hc]]. inversion Hc; subst st2; clear Hc.
+      assert (wfshape (set_symbols st (enter_scope (c_symbols st))) pre sc k (outer ++ [cur]) []) as W0.
+      { split; [cbn [set_symbols c_symbols]; rewrite Ws; apply enter_ltab|]. split; [exact Wp|]. rewrite flat_enter. exact Ww. }
+      destruct (shape_stmts (s0 :: r) lp fn fn _ stb pre sc k (outer ++ [cur]) [] HF Hb W0) as [kb [[Wb _] Hkb]].
+      assert (wfshape (set_symbols stb (leave_scope (c_symbols stb))) pre sc kb outer cur) as W2.
+      { split; [cbn [set_symbols c_symbols]; rewrite Wb; cbn [app]; apply leave_ltab|]. split; [exact Wp|lia]. }
+      destruct (ctx_ok_shape st _ c E (wfshape_same _ _ _ _ _ _ _ _ W W2 Hkb) Hctx) as [A B].
+      split; [exact A|]. split; [exact B|]. intros _. exists stb. split; [exact Hb|].
+      rewrite (cmax_ltab stb _ _ _ _ _ Wb). symmetry. exact (cmax_ltab _ _ _ _ _ _ (proj1 W2)).
+  Qed.
+
+  Lemma stmt_block : forall f, P_l f -> forall b lp fa fn r c st st' E F sst y last last',
+    f3b lp fa fn (SBlock b :: r) = true -> compile_statements (SBlock b :: r) st = Ok st' -> ctx_ok st c E -> flags_ok fa fn E ->
+    Rel3 Sall E F sst y -> locb E st' -> holes_b E (SBlock b :: r) -> (forall fe, occ_l (SBlock b :: r) st fe -> Sall fe) ->
+    vrel F last last' -> l_concl (S f) fa (SBlock b :: r) c st E F sst y last last'.
+  Proof.
+    intros f IHl b lp fa fn r c st st' E F sst y last last' HF Hc Hctx Hfl HR Hloc Hh Hocc Hlast.
+    rewrite f3b_cons in HF. apply andb_prop in HF. destruct HF as [HFb HFr]. rewrite f3s_block in HFb.
+    cbn [compile_statements] in Hc. bok Hc st2 H2.
+    destruct (holes_cons E _ _ Hh) as [Hhs Hhr].
+    destruct (sblock_ctx b lp fn st st2 c E HFb H2 Hctx) as [Hctx2 [Hk2 Hstb]].
+    pose proof (cmax_stmts r lp fa fn _ st' c E HFr Hc Hctx2) as Hk3.
+    unfold l_concl. rewrite eb_block, ys_block.
+    apply (seq_l E E F sst _ _ _ _ (fun E' => top0 fa E = false -> ce_L E' = ce_L E)).
+    - assert (forall fe, occ_blk b st fe -> Sall fe) as Hob.
+      { intros fe Ho. apply Hocc. apply oc_l_hd. apply oc_s_block. exact Ho. }
+      destruct b as [|s0 b0].
+      + apply (block_corr f IHl lp fa fn [] c st st E F sst y HFb Hfl); try assumption. intros N; contradiction.
+      + destruct (Hstb ltac:(discriminate)) as [stb [Hb Hkb]].
+        apply (block_corr f IHl lp fa fn (s0 :: b0) c st stb E F sst y HFb Hfl); try assumption.
+        intros _. split; [exact Hb|]. intros Em; specialize (Hloc Em); lia.
+    - apply env_ext_refl.
+    - reflexivity.
+    - intros vs s1 vy y1 X V R1 Fr1. split; [apply fresh_ext_refl|]. cbv beta. rewrite H2.
+      destruct (IHl lp fa fn r c st2 st' E (F ++ X) s1 y1 vs vy HFr Hc Hctx2 Hfl R1 Hloc Hhr
+                  (fun fe Ho => Hocc fe (oc_l_tl _ _ _ _ _ H2 Ho)) V) as [E' [Hext [HL Hcorr]]].
+      exists E'. split; [exact Hext|]. split; [exact HL|exact Hcorr].
+  Qed.
+
+  (** ** Declarations *)
+
+  Lemma fun_st1_named : forall c0 nm st,
+    fun_st1 (c0 :: nm) st = (set_symbols st (fst (define (c_symbols st) (c0 :: nm))), Some (snd (define (c_symbols st) (c0 :: nm)))).
+  Proof. intros. unfold fun_st1. cbn [is_nil]. destruct (define (c_symbols st) (c0 :: nm)). reflexivity. Qed.
+
+  (* a named function leaves the table with its name declared *)
+  Lemma named_fun_syms : forall c0 nm ps body st stF c E, f3b false true true body = true -> ctx_ok st c E ->
+    compile_expression (EFunction (c0 :: nm) ps body) st = Ok stF ->
+    c_symbols stF = fst (define (c_symbols st) (c0 :: nm)).
+  Proof.
+    intros c0 nm ps body st stF c E HFb Hctx Hc.
+    destruct (ctx_ok_wfshape st c E Hctx) as [pre [sc [k [outer [cur [[Ws [Wp Ww]] _]]]]]].
+    rewrite ce_function3, fun_st1_named in Hc. rewrite Ws, define_ltab in Hc |- *. cbn [fst snd] in Hc |- *.
+    assert (length (flat outer (cur ++ [c0 :: nm])) <= S k)%nat as Hw1.
+    { rewrite flat_snoc, app_length. cbn [length]. lia. }
+    destruct (function_tail_sim dummy_orc ps body (Some (mkSymbol sc (length (flat outer cur)))) (lsim_all dummy_orc body) HFb
+                (set_symbols st (ltab pre sc (S k) outer (cur ++ [c0 :: nm]))) stF pre sc (S k) outer (cur ++ [c0 :: nm]) eq_refl Wp Hw1
+                ltac:(intros s0 N; inversion N; subst s0; cbn [s_scope s_index]; split; [reflexivity|lia]) Hc)
+      as [ce [CF _]].
+    exact (cf3_syms _ _ _ _ _ _ _ _ _ CF).
+  Qed.
+
+  Lemma locb_decl : forall E x cl fa hole st', locb E st' -> locb (decl_env E x cl fa hole) st'.
+  Proof. intros E x cl fa hole st' H. unfold locb, decl_env in *. destruct (ce_mode E); cbn [ce_mode ce_N]; exact H. Qed.
+
+  Lemma top0_decl : forall E x cl fa hole, top0 fa (decl_env E x cl fa hole) = top0 fa E.
+  Proof. intros. unfold top0, decl_env. destruct (ce_mode E); reflexivity. Qed.
+
+  Lemma mode_decl : forall E x cl fa hole, ce_mode (decl_env E x cl fa hole) = ce_mode E.
+  Proof. intros. unfold decl_env. destruct (ce_mode E) eqn:Em; cbn [ce_mode]; auto. Qed.
+
+  Lemma holes_decl : forall E F sst y (P : text -> bool) x cl fa, Rel3 Sall E F sst y -> holes_gen E P ->
+    holes_gen (decl_env E x cl fa false) P.
+  Proof.
+    intros E F sst y P x cl fa HR [Hg Hl]. unfold decl_env.
+    destruct (ce_mode E) eqn:Em; split; cbn [ce_gh ce_lh ce_ds ce_dl ce_mode ce_nf].
+    - intros h y0 c0 Hin Hn Hm. apply (Hg h y0 c0 Hin); [|intros N; discriminate N].
+      rewrite nth_error_app1 in Hn by exact (r_ghlt _ _ _ _ _ HR h Hin). exact Hn.
+    - exact Hl.
+    - intros h y0 c0 Hin Hn Hm. apply (Hg h y0 c0 Hin Hn). exact Hm.
+    - intros h y0 c0 Hin Hn. apply (Hl h y0 c0 Hin).
+      rewrite nth_error_app1 in Hn by exact (r_lhlt _ _ _ _ _ HR h Hin). exact Hn.
+  Qed.
+
+  Lemma holes_decl_hole : forall E F sst y (P : text -> bool) x cl fa, Rel3 Sall E F sst y -> holes_gen E P -> P x = false ->
+    holes_gen (decl_env E x cl fa true) P.
+  Proof.
+    intros E F sst y P x cl fa HR [Hg Hl] Hx. unfold decl_env.
+    destruct (ce_mode E) eqn:Em; split; cbn [ce_gh ce_lh ce_ds ce_dl ce_mode ce_nf].
+    - intros h y0 c0 [<-|Hin] Hn Hm.
+      + rewrite nth_error_app2, Nat.sub_diag in Hn by lia. cbn [nth_error] in Hn. inversion Hn; subst y0. exact Hx.
+      + apply (Hg h y0 c0 Hin); [|intros N; discriminate N].
+        rewrite nth_error_app1 in Hn by exact (r_ghlt _ _ _ _ _ HR h Hin). exact Hn.
+    - exact Hl.
+    - intros h y0 c0 Hin Hn Hm. apply (Hg h y0 c0 Hin Hn). exact Hm.
+    - intros h y0 c0 [<-|Hin] Hn.
+      + rewrite nth_error_app2, Nat.sub_diag in Hn by lia. cbn [nth_error] in Hn. inversion Hn; subst y0. exact Hx.
+      + apply (Hl h y0 c0 Hin).
+        rewrite nth_error_app1 in Hn by exact (r_lhlt _ _ _ _ _ HR h Hin). exact Hn.
+  Qed.
+
+  (* inside a function a declaration can be forgotten again *)
+  Lemma Rel3_undecl : forall E F s y x cl fa hole, Rel3 Sall (decl_env E x cl fa hole) F s y -> ce_mode E = MFun ->
+    (forall h, In h (ce_lh E) -> (h < length (ce_dl E))%nat) -> Rel3 Sall E F s y.
+  Proof.
+    intros E F s y x cl fa hole HR Em Hl. unfold decl_env in HR. rewrite Em in HR.
+    destruct HR as [R1 R2 R3 R4 R5 R6 R7 R8 R9 R10 R11 R12 R13 R14].
+    cbn [ce_mode ce_ds ce_dl ce_nf ce_L ce_gh ce_lh ce_N] in *.
+    constructor; auto.
+    - rewrite app_assoc, map_app in R4. exact (NoDup_app_l _ _ _ R4).
+    - intros i x0 c Hi Hn. apply (R6 i x0 c).
+      + rewrite nth_error_app1; [exact Hi|]. apply nth_error_Some. rewrite Hi. discriminate.
+      + intros Hin. assert (i < length (ce_dl E))%nat as Hlt by (apply nth_error_Some; rewrite Hi; discriminate).
+        destruct hole; [destruct Hin as [<-|Hin]; [lia|exact (Hn Hin)]|exact (Hn Hin)].
+    - intros c Hin. apply R7. rewrite app_assoc, map_app. apply in_or_app. left. exact Hin.
+  Qed.
+
+  Lemma dl_le_cmax : forall st c E, ctx_ok st c E -> ce_mode E = MFun -> (length (ce_dl E) <= cmax st)%nat.
+  Proof.
+    intros st c E Hctx Em. unfold ctx_ok in Hctx. rewrite Em in Hctx.
+    destruct Hctx as [g [c0 [mids [k [outer [cur [_ [_ [_ [_ [H5 [_ [H7 [_ H9]]]]]]]]]]]]]].
+    rewrite (cmax_ltab st _ _ _ _ _ H5). rewrite H7, map_length in H9. exact H9.
+  Qed.
+
+  (* the initialiser of `stel` has been evaluated in Eh (the new slot is a hole); then the rest *)
+  Lemma seq_let : forall E Eh F sst sst1 r x (k : val -> sstate -> res val) (kx : val -> yst -> yres val) (P : cenv -> Prop),
+    corr Sall Eh Eh F sst1 r x -> nosig x -> P E ->
+    (forall X s' y', Rel3 Sall Eh (F ++ X) s' y' -> frame Eh sst1 s' -> ce_mode Eh = MFun ->
+       ce_mode E = MFun /\ Rel3 Sall E (F ++ X) s' y' /\ frame E sst s') ->
+    (forall vs s1 vy y1 X, vrel (F ++ X) vs vy -> Rel3 Sall Eh (F ++ X) s1 y1 -> frame Eh sst1 s1 ->
+       exists E', env_ext E E' /\ P E' /\ corr Sall E E' F sst (k vs s1) (kx vy y1)) ->
+    exists E', env_ext E E' /\ P E' /\ corr Sall E E' F sst (rbind r k) (ybind x kx).
+  Proof.
+    intros E Eh F sst sst1 r x k kx P H Hns HP Hund Hk.
+    destruct r as [vs s'|[| |rv] s'|e s'|f s'|]; destruct x as [vy y'|y'|y'|vy y'|k'|f'| |]; cbn [corr rbind ybind nosig] in *;
+      try contradiction;
+      try (exists E; split; [apply env_ext_refl|]; split; [exact HP|]; first [exact I|exact H|destruct e; first [exact I|exact H]]; fail).
+    - destruct H as [X [V [R Fr]]]. exact (Hk vs s' vy y' X V R Fr).
+    - exists E. split; [apply env_ext_refl|]. split; [exact HP|].
+      destruct (k vs s') as [a b|[| |c] b|e b|f b|]; try exact I. destruct e; exact I.
+    - destruct H as [Hmd [X [V [R Fr]]]]. destruct (Hund X s' y' R Fr Hmd) as [A [B C]].
+      exists E. split; [apply env_ext_refl|]. split; [exact HP|]. split; [exact A|]. exists X. auto.
+    - exists E. split; [apply env_ext_refl|]. split; [exact HP|]. destruct e; try contradiction. exact I.
+  Qed.
+
+  (* after a declaration bound to a function literal: the rest of the list *)
+  Lemma decl_fun_tail : forall f, P_l f -> forall lp fa fn r c st st2 st' E F sst y x ps body st4 last1 last1',
+    ctx_ok st c E -> flags_ok fa fn E -> fa = true -> Rel3 Sall E F sst y ->
+    c_block_statement body (fun_st3 ps (set_symbols st (fst (define (c_symbols st) x)))) = Ok st4 ->
+    f3b false true true body = true -> holes_gen E (fun y => mentions_b y body) ->
+    let st0 := set_symbols st (fst (define (c_symbols st) x)) in
+    let sym := snd (define (c_symbols st) x) in
+    let cl := st_next sst in
+    let c' := d_declare c x cl in
+    let fe := mkFE (code_len (fun_st3 ps st0)) (Z.of_nat (snd (leave_context (c_symbols st4)))) ps body (fun_st3 ps st0) in
+    Sall fe ->
+    let clo := mkClo ps body (match d_global c' with Some g => g | None => d_local c' end) in
+    let v := VFun (zlength (st_funs sst)) 0 in
+    let v' := VFun (fe_ip fe) (fe_n fe) in
+    let sst3 := set_cell cl v (mkSt (st_heap sst) (st_cells sst) (Pos.succ cl) (st_funs sst ++ [clo]) (st_out sst)) in
+    let y3 := y_set sym v' (mkY (y_m y) (y_loc y) (y_funs y ++ [fe])) in
+    c_symbols st2 = c_symbols st0 -> f3b lp fa fn r = true -> compile_statements r st2 = Ok st' -> locb E st' ->
+    holes_b E r -> (forall fe0, occ_l r st2 fe0 -> Sall fe0) ->
+    (vrel (F ++ [fe]) v v' -> vrel (F ++ [fe]) last1 last1') ->
+    exists E', env_ext E E' /\ (top0 fa E = false -> ce_L E' = ce_L E) /\
+      corr Sall E E' F sst (exec_block orc f c' r last1 sst3) (ystmts orc f st2 r last1' y3).
+  Proof.
+    intros f IHl lp fa fn r c st st2 st' E F sst y x ps body st4 last1 last1' Hctx Hfl Hfa HR H4 HFb Hhb
+           st0 sym cl c' fe HS clo v v' sst3 y3 Hsy HFr Hc Hloc Hhr Hocc Hlast.
+    destruct (ctx_ok_declare st c E x cl fa false Hctx) as [Hctx0 [Hk0 _]]. fold st0 c' in Hctx0, Hk0.
+    destruct (ctx_ok_syms st0 st2 c' _ Hsy Hctx0) as [Hctx2 Hk2].
+    pose proof (cmax_stmts r lp fa fn st2 st' c' _ HFr Hc Hctx2) as Hk3.
+    destruct (decl_fun_step E F sst y fa fn c st x ps body st4 Hctx Hfl Hfa HR H4 HFb Hhb
+                ltac:(intros Em; specialize (Hloc Em); lia) HS) as [R3 [Hv [Hfr _]]].
+    fold st0 sym cl c' fe clo v v' sst3 y3 in R3, Hv, Hfr.
+    destruct (IHl lp fa fn r c' st2 st' (decl_env E x cl fa false) (F ++ [fe]) sst3 y3 last1 last1' HFr Hc Hctx2
+                (flags_decl fa fn E x cl false Hfl) R3 (locb_decl E x cl fa false st' Hloc)
+                (holes_decl E F sst y _ x cl fa HR Hhr) Hocc (Hlast Hv)) as [E' [Hext [HL Hcorr]]].
+    destruct (decl_env_ext E x cl fa false (r_L _ _ _ _ _ HR) eq_refl) as [Hext1 HL1].
+    exists E'. split; [exact (env_ext_trans _ _ _ Hext1 Hext)|]. split.
+    - intros Ht. rewrite HL, HL1; [reflexivity|exact Ht|]. rewrite top0_decl. exact Ht.
+    - exact (corr_shift_ext E _ E' F [fe] sst sst3 _ _ Hfr (fresh_decl E x sst fa false) (proj1 Hext1) Hcorr).
+  Qed.
+
+  (* functie f(ps) { body } as a statement *)
+  Lemma stmt_fundecl : forall f, P_l f -> forall c0 nm ps body lp fa fn r c st st' E F sst y last last',
+    f3b lp fa fn (SExpr (EFunction (c0 :: nm) ps body) :: r) = true ->
+    compile_statements (SExpr (EFunction (c0 :: nm) ps body) :: r) st = Ok st' -> ctx_ok st c E -> flags_ok fa fn E ->
+    Rel3 Sall E F sst y -> locb E st' -> holes_b E (SExpr (EFunction (c0 :: nm) ps body) :: r) ->
+    (forall fe, occ_l (SExpr (EFunction (c0 :: nm) ps body) :: r) st fe -> Sall fe) ->
+    vrel F last last' -> l_concl (S f) fa (SExpr (EFunction (c0 :: nm) ps body) :: r) c st E F sst y last last'.
+  Proof.
+    intros f IHl c0 nm ps body lp fa fn r c st st' E F sst y last last' HF Hc Hctx Hfl HR Hloc Hh Hocc Hlast.
+    set (x := c0 :: nm) in *.
+    rewrite f3b_cons in HF. apply andb_prop in HF. destruct HF as [HFe HFr]. unfold x in HFe. rewrite f3s_expr_named in HFe.
+    fold x in HFe. apply andb_prop in HFe. destruct HFe as [Hfa HFb].
+    cbn [compile_statements] in Hc. bok Hc st2 H2. pose proof H2 as H2'. rewrite CompilerNames.cs_expr in H2. bok H2 stF H1.
+    inversion H2; subst st2; clear H2.
+    destruct (holes_cons E _ _ Hh) as [Hhs Hhr].
+    destruct f as [|f'].
+    { exists E. split; [apply env_ext_refl|]. split; [reflexivity|]. rewrite eb_expr3. apply corr_fuel. }
+    destruct (function_parts x ps body st stF H1) as [st4 H4o]. pose proof H4o as H4. unfold x in H4.
+    rewrite fun_st1_named in H4. fold x in H4. cbn [fst] in H4.
+    pose proof (Hocc _ (oc_l_hd _ _ _ _ (oc_s_expr _ _ _ (oc_here x ps body st st4 H4o)))) as HS.
+    unfold lit_entry, x in HS. rewrite fun_st1_named in HS. fold x in HS. cbn [fst] in HS.
+    pose proof (named_fun_syms c0 nm ps body st stF c E HFb Hctx H1) as Hsy. fold x in Hsy.
+    destruct (decl_fun_tail (S f') IHl lp fa fn r c st (emit_opcode OPop stF) st' E F sst y x ps body st4
+                (VFun (zlength (st_funs sst)) 0)
+                (VFun (code_len (fun_st3 ps (set_symbols st (fst (define (c_symbols st) x)))))
+                      (Z.of_nat (snd (leave_context (c_symbols st4)))))
+                Hctx Hfl Hfa HR H4 HFb Hhs HS Hsy HFr Hc Hloc Hhr
+                (fun fe Ho => Hocc fe (oc_l_tl _ _ _ _ _ H2' Ho)) (fun V => V)) as [E' [Hext [HL Hcorr]]].
+    exists E'. split; [exact Hext|]. split; [exact HL|].
+    rewrite eb_expr3, ee_function, ys_expr, ye_function, H2'. unfold yfunction, x. rewrite fun_st1_named. fold x. rewrite H4.
+    unfold new_cell. cbn [rbind ybind st_heap st_cells st_next st_funs st_out set_cell]. rewrite Pos.pred_succ.
+    exact Hcorr.
+  Qed.
+
+  Lemma cs_let' : forall x e st, compile_statement (SLet x e) st =
+    do st1 <- compile_expression e (set_symbols st (fst (define (c_symbols st) x)));
+    emit_sym (scoped (snd (define (c_symbols st) x)) OSetGlobal OSetLocal) (snd (define (c_symbols st) x)) st1.
+  Proof. intros. rewrite CompilerNames.cs_let. destruct (define (c_symbols st) x). reflexivity. Qed.
+
+  Lemma ys_let' : forall f st x e r last y,
+    ystmts orc (S f) st (SLet x e :: r) last y =
+    ybind (yeval orc f (set_symbols st (fst (define (c_symbols st) x))) e y) (fun v y1 =>
+      match compile_statement (SLet x e) st with
+      | Ok st2 => ystmts orc f st2 r VNull (y_set (snd (define (c_symbols st) x)) v y1)
+      | _ => YFault FUnwrap
+      end).
+  Proof. intros. rewrite ys_let. destruct (define (c_symbols st) x). reflexivity. Qed.
+
+  Lemma eb_let' : forall f c x e r last sst,
+    exec_block orc (S f) c (SLet x e :: r) last sst =
+    rbind (eval_expr orc f (d_declare c x (st_next sst)) e (snd (new_cell sst)))
+          (fun v st2 => exec_block orc f (d_declare c x (st_next sst)) r VNull (set_cell (st_next sst) v st2)).
+  Proof. reflexivity. Qed.
+
+  (* stel f = functie(ps) { body } *)
+  Lemma stmt_let_fun : forall f, P_l f -> forall x ps body lp fa fn r c st st' E F sst y last last',
+    f3b lp fa fn (SLet x (EFunction [] ps body) :: r) = true ->
+    compile_statements (SLet x (EFunction [] ps body) :: r) st = Ok st' -> ctx_ok st c E -> flags_ok fa fn E ->
+    Rel3 Sall E F sst y -> locb E st' -> holes_b E (SLet x (EFunction [] ps body) :: r) ->
+    (forall fe, occ_l (SLet x (EFunction [] ps body) :: r) st fe -> Sall fe) ->
+    vrel F last last' -> l_concl (S f) fa (SLet x (EFunction [] ps body) :: r) c st E F sst y last last'.
+  Proof.
+    intros f IHl x ps body lp fa fn r c st st' E F sst y last last' HF Hc Hctx Hfl HR Hloc Hh Hocc Hlast.
+    rewrite f3b_cons in HF. apply andb_prop in HF. destruct HF as [HFe HFr]. rewrite f3s_let in HFe.
+    apply andb_prop in HFe. destruct HFe as [HFe _]. rewrite f3e_function in HFe. apply andb_prop in HFe.
+    destruct HFe as [HFe HFb]. apply andb_prop in HFe. destruct HFe as [Hfa _].
+    cbn [compile_statements] in Hc. bok Hc st2 H2. pose proof H2 as H2'. rewrite cs_let' in H2. bok H2 st1 H1.
+    set (st0 := set_symbols st (fst (define (c_symbols st) x))) in *.
+    destruct (holes_cons E _ _ Hh) as [Hhs Hhr].
+    destruct f as [|f'].
+    { exists E. split; [apply env_ext_refl|]. split; [reflexivity|]. rewrite eb_let'. apply corr_fuel. }
+    destruct (function_parts [] ps body st0 st1 H1) as [st4 H4]. cbn [fun_st1 is_nil fst] in H4.
+    pose proof (Hocc _ (oc_l_hd _ _ _ _ (oc_s_let x _ st _ (oc_here [] ps body st0 st4 H4)))) as HS.
+    unfold lit_entry in HS. cbn [fun_st1 is_nil fst] in HS.
+    assert (c_symbols st2 = c_symbols st0) as Hsy.
+    { rewrite (proj1 (emit_sym_spec _ _ _ _ H2)).
+      destruct (ctx_ok_declare st c E x (st_next sst) fa false Hctx) as [Hctx0 _]. fold st0 in Hctx0.
+      destruct (ctx_ok_wfshape st0 _ _ Hctx0) as [pre [sc [k [outer [cur [[Ws [Wp Ww]] _]]]]]].
+      rewrite ce_function3 in H1. cbn [fun_st1 is_nil] in H1.
+      destruct (function_tail_sim dummy_orc ps body None (lsim_all dummy_orc body) HFb st0 st1 pre sc k outer cur Ws Wp Ww
+                  ltac:(intros s0 N; discriminate N) H1) as [ce [CF _]].
+      rewrite (cf3_syms _ _ _ _ _ _ _ _ _ CF). symmetry. exact Ws. }
+    destruct (decl_fun_tail (S f') IHl lp fa fn r c st st2 st' E F sst y x ps body st4 VNull VNull
+                Hctx Hfl Hfa HR H4 HFb Hhs HS Hsy HFr Hc Hloc Hhr
+                (fun fe Ho => Hocc fe (oc_l_tl _ _ _ _ _ H2' Ho)) (fun _ => vrel_null _)) as [E' [Hext [HL Hcorr]]].
+    exists E'. split; [exact Hext|]. split; [exact HL|].
+    rewrite eb_let', ee_function, ys_let', ye_function, H2'. unfold yfunction. cbn [fun_st1 is_nil]. fold st0. rewrite H4.
+    unfold new_cell. cbn [rbind ybind snd st_heap st_cells st_next st_funs st_out set_cell].
+    exact Hcorr.
+  Qed.
+
+  (* stel x = e, x not mentioned in e *)
+  Lemma stmt_let : forall f, P_e f -> P_l f -> forall x e lp fa fn r c st st' E F sst y last last',
+    mentions x e = false ->
+    f3b lp fa fn (SLet x e :: r) = true -> compile_statements (SLet x e :: r) st = Ok st' -> ctx_ok st c E -> flags_ok fa fn E ->
+    Rel3 Sall E F sst y -> locb E st' -> holes_b E (SLet x e :: r) -> (forall fe, occ_l (SLet x e :: r) st fe -> Sall fe) ->
+    vrel F last last' -> l_concl (S f) fa (SLet x e :: r) c st E F sst y last last'.
+  Proof.
+    intros f IHe IHl x e lp fa fn r c st st' E F sst y last last' Hmx HF Hc Hctx Hfl HR Hloc Hh Hocc Hlast.
+    rewrite f3b_cons in HF. apply andb_prop in HF. destruct HF as [HFe HFr]. rewrite f3s_let in HFe.
+    apply andb_prop in HFe. destruct HFe as [HFe _].
+    cbn [compile_statements] in Hc. bok Hc st2 H2. pose proof H2 as H2'. rewrite cs_let' in H2. bok H2 st1 H1.
+    set (st0 := set_symbols st (fst (define (c_symbols st) x))) in *.
+    set (cl := st_next sst). set (c' := d_declare c x cl).
+    destruct (holes_cons E _ _ Hh) as [Hhs Hhr].
+    destruct (ctx_ok_declare st c E x cl fa true Hctx) as [Hctxh [Hk0 [sc [idx [Esym Hsym]]]]]. fold st0 c' in Hctxh, Hk0.
+    destruct (ctx_ok_declare st c E x cl fa false Hctx) as [Hctx0 _]. fold st0 c' in Hctx0.
+    destruct (ctx_ok_expr e false fa fn st0 st1 c' _ HFe H1 Hctx0) as [Hctx1 Hk1].
+    destruct (ctx_ok_syms st1 st2 c' _ (proj1 (emit_sym_spec _ _ _ _ H2)) Hctx1) as [Hctx2 Hk2].
+    pose proof (cmax_stmts r lp fa fn st2 st' c' _ HFr Hc Hctx2) as Hk3.
+    destruct (Rel3_decl E F sst y x fa st c HR Hctx) as [Rh Frh]. fold cl in Rh.
+    destruct (decl_env_ext E x cl fa false (r_L _ _ _ _ _ HR) eq_refl) as [Hext1 HL1].
+    unfold l_concl. rewrite eb_let', ys_let'. fold cl c' st0.
+    apply (seq_let E (decl_env E x cl fa true) F sst (snd (new_cell sst)) _ _ _ _ (fun E' => top0 fa E = false -> ce_L E' = ce_L E)).
+    - apply (IHe false fa fn e c' st0 st1 _ F _ y HFe H1 Hctxh (flags_decl fa fn E x cl true Hfl) Rh).
+      + apply locb_decl. intros Em. specialize (Hloc Em). lia.
+      + apply (holes_decl_hole E F sst y _ x cl fa HR Hhs). exact Hmx.
+      + intros fe Ho. apply Hocc. apply oc_l_hd. apply oc_s_let. exact Ho.
+    - exact (proj1 (yeval_nosig orc f) e fa fn st0 y HFe).
+    - reflexivity.
+    - intros X s' y' R' Fr' Hmd. rewrite mode_decl in Hmd. split; [exact Hmd|].
+      split; [exact (Rel3_undecl E _ s' y' x cl fa true R' Hmd (r_lhlt _ _ _ _ _ HR))|].
+      exact (frame_ext E _ sst _ s' Frh Fr' (fresh_decl E x sst fa true)).
+    - intros vs s1 vy y1 X V R1 Fr1. cbv beta. rewrite H2', Esym.
+      pose proof (frame_ext E _ sst _ s1 Frh Fr1 (fresh_decl E x sst fa true)) as FrE.
+      assert (st_next sst < st_next s1)%positive as Hnx.
+      { destruct Fr1 as [_ [Hn _]]. unfold new_cell in Hn. cbn [snd st_next] in Hn. lia. }
+      assert (Rel3 Sall (decl_env E x cl fa false) (F ++ X) (set_cell cl vs s1) (y_set (mkSymbol sc idx) vy y1)) as R2.
+      { apply (Rel3_fill E (F ++ X) s1 y1 x cl fa vs vy sc idx R1 V). destruct (ce_mode E) eqn:Em; [exact Hsym|].
+        destruct Hsym as [-> ->]. split; [reflexivity|]. split; [reflexivity|].
+        pose proof (dl_le_cmax st c E Hctx Em). specialize (Hloc Em). lia. }
+      destruct (IHl lp fa fn r c' st2 st' (decl_env E x cl fa false) (F ++ X) _ _ VNull VNull HFr Hc Hctx2
+                  (flags_decl fa fn E x cl false Hfl) R2 (locb_decl E x cl fa false st' Hloc)
+                  (holes_decl E F sst y _ x cl fa HR Hhr) (fun fe Ho => Hocc fe (oc_l_tl _ _ _ _ _ H2' Ho)) (vrel_null _))
+        as [E' [Hext [HL Hcorr]]].
+      exists E'. split; [exact (env_ext_trans _ _ _ Hext1 Hext)|]. split.
+      + intros Ht. rewrite HL, HL1; [reflexivity|exact Ht|]. rewrite top0_decl. exact Ht.
+      + apply (corr_shift_ext E _ E' F X sst (set_cell cl vs s1) _ _ (frame_fill E sst vs s1 FrE Hnx)
+                 (fresh_decl E x sst fa false) (proj1 Hext1) Hcorr).
+  Qed.
+
+  (** ** The induction on the fuel *)
+
+  Lemma step_l : forall f, P_e f -> P_l f -> P_l (S f).
+  Proof.
+    intros f IHe IHl lp fa fn l c st st' E F sst y last last' HF Hc Hctx Hfl HR Hloc Hh Hocc Hlast.
+    change (l_concl (S f) fa l c st E F sst y last last').
+    destruct l as [|s r]; [apply stmt_nil; assumption|].
+    destruct s as [x e|e|e|b| |].
+    - destruct (mentions x e) eqn:Emx.
+      + assert (is_funlit e = true) as Hfl'.
+        { rewrite f3b_cons in HF. apply andb_prop in HF. destruct HF as [HFe _]. rewrite f3s_let in HFe.
+          apply andb_prop in HFe. destruct HFe as [_ HFe]. rewrite Emx in HFe. exact HFe. }
+        destruct e; try discriminate Hfl'. destruct name; [|discriminate Hfl'].
+        exact (stmt_let_fun f IHl x params body lp fa fn r c st st' E F sst y last last' HF Hc Hctx Hfl HR Hloc Hh Hocc Hlast).
+      + exact (stmt_let f IHe IHl x e lp fa fn r c st st' E F sst y last last' Emx HF Hc Hctx Hfl HR Hloc Hh Hocc Hlast).
+    - exact (stmt_return f IHe e lp fa fn r c st st' E F sst y last last' HF Hc Hctx Hfl HR Hloc Hh Hocc Hlast).
+    - assert ((exists c0 nm ps body, e = EFunction (c0 :: nm) ps body) \/
+              (forall c0 nm ps body, e <> EFunction (c0 :: nm) ps body)) as [[c0 [nm [ps [body ->]]]]|Hne].
+      { destruct e; try (right; intros; discriminate). destruct name as [|c0 nm]; [right; intros; discriminate|left; eauto]. }
+      + exact (stmt_fundecl f IHl c0 nm ps body lp fa fn r c st st' E F sst y last last' HF Hc Hctx Hfl HR Hloc Hh Hocc Hlast).
+      + exact (stmt_expr f IHe IHl e Hne lp fa fn r c st st' E F sst y last last' HF Hc Hctx Hfl HR Hloc Hh Hocc Hlast).
+    - exact (stmt_block f IHl b lp fa fn r c st st' E F sst y last last' HF Hc Hctx Hfl HR Hloc Hh Hocc Hlast).
+    - apply stmt_break. exact HR.
+    - apply stmt_continue. exact HR.
+  Qed.
+
+  Lemma step_e : forall f, P_e f -> P_l f -> P_w f -> P_e (S f).
+  Proof.
+    intros f IHe IHl IHw lp fa fn e c st st' E F sst y HF Hc Hctx Hfl HR Hloc Hh Hocc.
+    destruct e as [l o r|o r|z|fl|b|cnd t alt|x|name ps body|fn_ args|l r|str|vs|l i|cnd body]; try discriminate HF.
+    - exact (step_infix f IHe lp fa fn l o r c st st' E F sst y HF Hc Hctx Hfl HR Hloc Hh Hocc).
+    - exact (step_prefix f IHe lp fa fn o r c st st' E F sst y HF Hc Hctx Hfl HR Hloc Hh Hocc).
+    - rewrite ee_int, ye_int. cbn [corr]. exists []. rewrite app_nil_r.
+      split; [apply vrel_refl_scalar; apply scalar_lit; exact HF|]. split; [exact HR|apply frame_refl].
+    - rewrite ee_bool, ye_bool. cbn [corr]. exists []. rewrite app_nil_r.
+      split; [apply vrel_refl_scalar; reflexivity|]. split; [exact HR|apply frame_refl].
+    - exact (step_if f IHe IHl lp fa fn cnd t alt c st st' E F sst y HF Hc Hctx Hfl HR Hloc Hh Hocc).
+    - exact (step_ident f x c st st' E F sst y Hc Hctx HR Hh).
+    - exact (step_function f lp fa fn name ps body c st st' E F sst y HF Hc Hctx Hfl HR Hh Hocc).
+    - exact (step_call f IHe IHl lp fa fn fn_ args c st st' E F sst y HF Hc Hctx Hfl HR Hloc Hh Hocc).
+    - destruct l; try discriminate HF.
+      exact (step_assign f IHe lp fa fn s r c st st' E F sst y HF Hc Hctx Hfl HR Hloc Hh Hocc).
+    - exact (step_while f IHw lp fa fn cnd body c st st' E F sst y HF Hc Hctx Hfl HR Hloc Hh Hocc).
+  Qed.
+
+  Theorem sem_yeval : forall fuel, P_e fuel /\ P_l fuel /\ P_w fuel.
+  Proof.
+    induction fuel as [|f [IHe [IHl IHw]]].
+    - split; [|split].
+      + intros lp fa fn e c st st' E F sst y _ _ _ _ _ _ _ _. apply corr_fuel.
+      + intros lp fa fn l c st st' E F sst y last last' _ _ _ _ _ _ _ _ _. exists E.
+        split; [apply env_ext_refl|]. split; [reflexivity|apply corr_fuel].
+      + intros fa fn iter cnd body c st2 st3 st5 E F sst y last last' _ _ _ _ _ _ _ _ _ _ _ _ _. apply corr_fuel.
+    - split; [exact (step_e f IHe IHl IHw)|]. split; [exact (step_l f IHe IHl)|exact (step_w f IHe IHl IHw)].
   Qed.
 End SemSim.
